@@ -476,6 +476,9 @@ func (c *Ctx) call(caller *frame, callpos token.Pos, fn value, args []value) val
 		}
 		return zeroResults(fn.sig)
 	case poison:
+		if c.tolerant {
+			return fn
+		}
 		c.unsupported("call of poison function value at %s", c.posStr(callpos))
 	}
 	panic(fmt.Sprintf("cannot call %T at %s", fn, c.posStr(callpos)))
@@ -580,11 +583,38 @@ func (c *Ctx) runFrame(fr *frame) {
 					fmt.Fprintf(os.Stderr, "%s   %s\n", strings.Repeat(" ", fr.depth), instr)
 				}
 			}
+			if c.tolerant && fr.caller == nil {
+				if c.tolerantInstr(fr, instr) {
+					return
+				}
+				continue
+			}
 			if c.visitInstr(fr, instr) {
 				return
 			}
 		}
 	}
+}
+
+// tolerantInstr executes one instruction of a package initialiser; an unsupported operation
+// poisons the instruction's result instead of aborting the initialiser.
+func (c *Ctx) tolerantInstr(fr *frame, instr ssa.Instruction) (ret bool) {
+	defer func() {
+		if r := recover(); r != nil {
+			pa, ok := r.(pathAbort)
+			if !ok || (pa.kind != "unsupported" && pa.kind != "bound") {
+				panic(r)
+			}
+			if _, isCtl := instr.(*ssa.If); isCtl {
+				panic(r)
+			}
+			if v, ok := instr.(ssa.Value); ok {
+				fr.env[v] = poison{pa.msg}
+			}
+			ret = false
+		}
+	}()
+	return c.visitInstr(fr, instr)
 }
 
 func (c *Ctx) executePhis(fr *frame) []ssa.Instruction {
